@@ -28,6 +28,17 @@ func main() {
 	case "explore":
 		explore(os.Args[2:])
 	case "list":
+		if len(os.Args) > 2 && os.Args[2] == "-json" {
+			out := map[string]any{}
+			for _, id := range rules.IDs() {
+				pr := rules.Get(id)
+				out[id] = map[string]any{"technique": pr.Technique, "text": pr.Explain.Text, "not_covered": pr.Explain.NotCovered,
+					"assumptions": pr.Explain.Assumptions, "rules": pr.Explain.Rules}
+			}
+			b, _ := json.MarshalIndent(out, "", " ")
+			fmt.Println(string(b))
+			return
+		}
 		for _, id := range rules.IDs() {
 			fmt.Println(id)
 		}
